@@ -182,7 +182,9 @@ func (w *World) logEventSeq(e *Event) {
 	}
 	w.events = append(w.events, e)
 	w.mu.Unlock()
-	if e.OK || e.Kind == "dev.Set" || strings.HasPrefix(e.Kind, "env.") {
+	// progress = successful writes, accepted device requests and environment actions; a request that is refused,
+	// faulted or sent into a closed connection is not progress (a retry loop of those is a stable state)
+	if e.OK || strings.HasPrefix(e.Kind, "env.") {
 		if e.Kind != "plugin.Validate" {
 			atomic.AddInt64(&w.writes, 1)
 			atomic.StoreInt64(&w.lastChange, time.Now().UnixNano())
